@@ -64,7 +64,7 @@ def run_one(ctx, scn, impls=("sync", "async"), oracle_fns=(), compare=True, deta
 def check_scenarios(ctx, scns, oracle_fns, family, impls=("sync", "async"), twins_are_property=False):
     rep = ctx.report
     for scn in scns:
-        pfs, dis, by_impl = run_one(ctx, scn, impls, oracle_fns)
+        pfs, dis, by_impl = run_one(ctx, scn, impls, oracle_fns, compare=not scn.get("oracle_only"))
         rep.evaluations += len(by_impl)
         rep.traces_validated += len(by_impl)
         rep.count("family", family)
